@@ -214,10 +214,10 @@ Print Assumptions interface_laws_satisfiable.
     [upoint] = s2_Point with finite coordinates and | |p|^2 - 1 | <= 2^-44 (implied by IsUnit),
     [u_peq] = Go ==, [u_sign] = RobustSign (Model/Pred.v robust_sign), [u_triage] = the translated
     triageSign, [u_tangent] = the float tangent test of NewEdgeCrosser/crossingSign.
-    The interface laws are discharged from the C02 theorems; what remains as premises:
-    [H_STABLE_DET] (C02: a decisive stableSign is the sign of the determinant) and
+    The interface laws are discharged from the C02 theorems (H-TRIAGE-DET and H-STABLE-DET are
+    closed C02 theorems now); what remains as a premise:
     [H_TANGENT] (the tangent early exit fires only when the exact criterion says "no crossing"). *)
-Theorem crossing_symmetric_real : H_STABLE_DET -> forall a b c d,
+Theorem crossing_symmetric_real : forall a b c d,
   crossing_spec upoint u_peq u_sign b a c d = crossing_spec upoint u_peq u_sign a b c d /\
   crossing_spec upoint u_peq u_sign a b d c = crossing_spec upoint u_peq u_sign a b c d /\
   crossing_spec upoint u_peq u_sign c d a b = crossing_spec upoint u_peq u_sign a b c d.
@@ -230,13 +230,13 @@ Theorem maybe_iff_shared_endpoint_real : forall a b c d,
 Proof. exact maybe_iff_shared_endpoint_real_l. Qed.
 Print Assumptions maybe_iff_shared_endpoint_real.
 
-Theorem crossing_sign_exact_real : H_STABLE_DET -> H_TANGENT -> forall a b c d,
+Theorem crossing_sign_exact_real : H_TANGENT -> forall a b c d,
   crossing_sign upoint u_peq u_sign u_triage u_tangent a b c d =
   crossing_spec upoint u_peq u_sign a b c d.
 Proof. exact crossing_sign_exact_real_l. Qed.
 Print Assumptions crossing_sign_exact_real.
 
-Theorem crosser_refines_spec_real : H_STABLE_DET -> H_TANGENT ->
+Theorem crosser_refines_spec_real : H_TANGENT ->
   forall (refdir : upoint -> upoint) a b c0 ops,
   map (fun x => (st_c upoint (fst x), snd x))
       (run upoint u_peq u_sign u_triage u_tangent refdir a b (init upoint c0) ops) =
@@ -244,7 +244,7 @@ Theorem crosser_refines_spec_real : H_STABLE_DET -> H_TANGENT ->
 Proof. exact crosser_refines_spec_real_l. Qed.
 Print Assumptions crosser_refines_spec_real.
 
-Theorem crosser_equals_stateless_real : H_STABLE_DET -> H_TANGENT ->
+Theorem crosser_equals_stateless_real : H_TANGENT ->
   forall (refdir : upoint -> upoint) a b c0 ops,
   map (fun x => (st_c upoint (fst x), snd x))
       (run upoint u_peq u_sign u_triage u_tangent refdir a b (init upoint c0) ops) =
@@ -252,7 +252,7 @@ Theorem crosser_equals_stateless_real : H_STABLE_DET -> H_TANGENT ->
 Proof. exact crosser_equals_stateless_real_l. Qed.
 Print Assumptions crosser_equals_stateless_real.
 
-Theorem vertex_crossing_exactly_one_real : H_STABLE_DET ->
+Theorem vertex_crossing_exactly_one_real :
   forall (refdir : upoint -> upoint) o x y,
   u_peq o x = false -> u_peq o y = false -> u_peq x y = false ->
   vertex_crossing upoint u_peq u_sign refdir o x o y =
